@@ -105,11 +105,20 @@ func efundScenario() *Scenario {
 		one("wreg(PA,fee10,granter=G)", model.Tx{Msgs: []model.Msg{wregMsg("PA")}, Fee: fee(10), FeeGranter: "G"}),
 		one("wreg(PA,fee10+1tok)", model.Tx{Msgs: []model.Msg{wregMsg("PA")}, Fee: map[string]string{mc.Nund: "10", mc.Tok: "1"}}),
 		one("wreg(PA,fee60)", model.Tx{Msgs: []model.Msg{wregMsg("PA")}, Fee: fee(60)}),
+		// messages of both modules in one transaction: the fee is still unlocked once
+		one("wreg+breg(PA,fee20)", model.Tx{Msgs: []model.Msg{wregMsg("PA"), {Kind: model.BcnReg, From: "PA", S: []string{"bmon2", "bname"}}}, Fee: fee(20)}),
+		one("breg+wreg(PB,fee20)", model.Tx{Msgs: []model.Msg{{Kind: model.BcnReg, From: "PB", S: []string{"bmon3", "bname"}}, wregMsg("PB")}, Fee: fee(20)}),
 		// a further order caught between acceptance and completion, and a vesting purchaser
 		Action{Name: "raise(PA,7)", Dt: ms, Txs: tx1(model.Msg{Kind: model.EntRaise, From: "PA", Den: mc.Nund, Amt: "7"}),
 			Enabled: func(m *model.State, _ map[string]int) bool { return len(m.Ent.Orders) == 4 }},
 		Action{Name: "raise(PV,500)", Dt: ms, Txs: tx1(model.Msg{Kind: model.EntRaise, From: "PV", Den: mc.Nund, Amt: "500"}),
 			Enabled: func(m *model.State, _ map[string]int) bool { return len(m.Ent.Orders) == 4 }},
+		// the purchaser leaves the whitelist while its order is between raise / acceptance / completion
+		Action{Name: "whitelist(S1,-PA)", Dt: ms, Txs: tx1(model.Msg{Kind: model.EntWhitelist, From: "S1", To: "PA", N: 2}),
+			Enabled: func(m *model.State, _ map[string]int) bool {
+				o, ok := m.Ent.Orders[5]
+				return ok && o.Purchaser == "PA" && m.Ent.Whitelist["PA"]
+			}},
 		Action{Name: "accept(S1,#5)", Dt: ms, Txs: tx1(model.Msg{Kind: model.EntDecide, From: "S1", ID: 5, N: 2}),
 			Enabled: func(m *model.State, _ map[string]int) bool {
 				o, ok := m.Ent.Orders[5]
